@@ -624,11 +624,16 @@ fn add_path_data<W: Write>(
 
         if let Some(path_type) = point.path_type {
             // The decoder never splits a segment at a repeated point at the
-            // segment's end, so the type of the last control point cannot be
-            // expressed implicitly.
+            // segment's end, so the type of a control point that is the last
+            // one of its segment (or of the path) cannot be expressed
+            // implicitly.
+            let ends_segment = control_points
+                .get(i + 1)
+                .map_or(true, |next| next.path_type.is_some());
+
             let mut needs_explicit_segment = point.path_type != last_type
                 || point.path_type == Some(PathType::PERFECT_CURVE)
-                || i == control_points.len() - 1;
+                || ends_segment;
 
             if i > 1 {
                 let p1 = pos + control_points[i - 1].pos;
